@@ -33,9 +33,9 @@ func e12TreeSize(seed uint64, tr int) int {
 	return 1 + 7 + rng.Intn(5)
 }
 
-func e12Case(seed uint64, tr, victim int, moment, mech string) Case {
+func e12Case(seed uint64, tr, victim int, moment, mech string, race bool) Case {
 	d := e12desc{seed, tr, victim, moment, mech}
-	id := fmt.Sprintf("E12/%d/t%d/v%d/%s/%s", seed, tr, victim, moment, mech)
+	id := fmt.Sprintf("E12/%d/t%d/v%d/%s/%s/r%v", seed, tr, victim, moment, mech, race)
 	return Case{ID: id, Desc: d, Bubble: true, Run: func(r *Res) {
 		rng := kit.NewRng(kit.Mix(seed, uint64(tr)+1200))
 		nn := 7 + rng.Intn(5) // must stay the first draw (see e12TreeSize)
@@ -45,6 +45,9 @@ func e12Case(seed uint64, tr, victim int, moment, mech string) Case {
 			plan.Targets = map[string]time.Duration{"refiltering...": 400 * time.Microsecond}
 		}
 		core := kit.NewCore(plan)
+		if race {
+			core = nil // collaborators without shared state: only the race log of these runs counts
+		}
 		srv := kit.NewPodServer(core)
 		u := smallUniverse()
 		for i := 0; i < 4; i++ {
@@ -254,7 +257,7 @@ func init() {
 						if m == "list-blocked" && mech == "list-error" {
 							continue // the blocked list never returns, so no later list can fail
 						}
-						cases = append(cases, e12Case(seed, tr, v, m, mech))
+						cases = append(cases, e12Case(seed, tr, v, m, mech, (tr+v+mi)%5 == 4 && m != "refiltering"))
 					}
 				}
 			}
